@@ -1,5 +1,8 @@
 import Acv.Driver.Decode
 import Acv.Model.PipelineChecks
+import Acv.Model.Report
+import Acv.Model.Cli
+import Acv.Gen.Cli
 import Acv.Gen.Pipeline
 /-! protocol operations: one JSON case in, one JSON line out -/
 namespace Acv.Driver
@@ -67,11 +70,64 @@ def opPipe (j : Json) : R Json := do
     ("closes", Json.num (Pipe.closeCount tr)),
     ("milestones", jstrs names)]
 
+/-- c03: header of the report for a profile with validations spread over the three levels -/
+def opC03 (j : Json) : R Json := do
+  let g ← decGraph (← fld j "graph")
+  let atoms ← (← fldArr j "atoms").mapM decAtom
+  let paths ← (← fldArr j "paths").mapM decPath
+  let env := graphEnv g atoms.toArray paths.toArray
+  let vals ← (← fldArr j "validations").mapM fun v => do
+    return (← fldStr v "name", ← fldStr v "class", ← decRule (← fld v "rule"))
+  let lv ← fld j "levels"
+  let names (k : String) : R (List String) := do (← fldArr lv k).mapM str
+  let prof : Rep.Profile := {
+    name := ← fldStr j "profileName", violation := ← names "violation", warning := ← names "warning",
+    info := ← names "info", defined := vals.map (·.1) }
+  let fires (v : String) : List String :=
+    match vals.find? (fun x => x.1 == v) with
+    | some (_, cls, r) => ((g.targets cls).filter (fun n => !Dnf.holds env r n)).map (·.id)
+    | none => []
+  let cj ← fld j "config"
+  let cfg : Rep.Config := {
+    includeDate := ← fldBool cj "includeDate", time := ← fldStr cj "time",
+    reportSchema := ← fldStr cj "reportSchema", lexicalSchema := ← fldStr cj "lexicalSchema" }
+  let rep := Rep.buildReport prof fires cfg
+  return Json.mkObj [
+    ("conforms", Json.bool rep.conforms),
+    ("profileName", Json.str rep.profileName),
+    ("hasResult", Json.bool rep.result.isSome),
+    ("dateCreated", match rep.dateCreated with | some d => Json.str d | none => Json.null),
+    ("results", jstrs (sortStrs (rep.results.map (fun r => s!"{r.severity}|{r.shape}|{r.focus}")))),
+    ("ctxReportSchema", Json.str rep.ctxReportSchema),
+    ("ctxLexicalSchema", match rep.ctxLexicalSchema with | some d => Json.str d | none => Json.null)]
+
+/-- cli: what the command line must leave on stdout / in the output file, given the library's output -/
+def opCli (j : Json) : R Json := do
+  let sub ← fldStr j "sub"
+  let toFile := fldBoolD j "toFile" false
+  let trunc := Gen.openFlags.contains "O_TRUNC"
+  let lib : Except String (List Char) :=
+    if has j "lib" then match fldStr j "lib" with | .ok s => .ok s.toList | .error e => .error e else .error "failed"
+  let prior : Cli.FileState := if has j "prior" then
+      match fldStr j "prior" with | .ok s => .content s.toList | .error _ => .absent
+    else .absent
+  let run : Cli.Run :=
+    if sub == "validate" then Cli.validateCmd trunc lib (if toFile then some prior else none)
+    else match lib with
+      | .ok text => ⟨0, Cli.printed text, .absent⟩
+      | .error _ => ⟨2, [], .absent⟩
+  return Json.mkObj [
+    ("exitZero", Json.bool (run.exit == 0)),
+    ("stdout", Json.str (String.ofList run.stdout)),
+    ("file", match run.file with | .absent => Json.null | .content bs => Json.str (String.ofList bs))]
+
 def runOp (j : Json) : R Json := do
   match ← fldStr j "op" with
   | "c01" => opC01 j
   | "c02" => opC02 j
   | "pipe" => opPipe j
+  | "c03" => opC03 j
+  | "cli" => opCli j
   | op => throw s!"unknown op {op}"
 
 def handleLine (line : String) : String :=
